@@ -6,5 +6,5 @@ git -C "$d/repo" reset -q --hard
 git -C "$d/repo" clean -fdq -e target
 git -C "$d/repo" checkout -q --detach "$(git -C /repo rev-parse HEAD)"
 rsync -a --delete --exclude .git --exclude '/out/' --exclude '/harness/target-*' --exclude '/harness/fuzz/target' --exclude '/replays/*/found-*' /verif/ "$d/verif/"
-sed -i "s#\"/repo/#\"$d/repo/#g" "$d/verif/harness/Cargo.toml" "$d/verif/harness/fuzz/Cargo.toml"
+sed -i "s#\"/repo/#\"$d/repo/#g" "$d/verif/harness/Cargo.toml" "$d/verif/harness/fuzz/Cargo.toml" "$d/verif/harness-min/Cargo.toml"
 echo "$d"
